@@ -1,7 +1,8 @@
 (* Stream/JsonProofs.v — proofs about the JSON-dict representation (C20). *)
 From Coq Require Import String.
 From ChiaV.Base Require Import Bytes.
-From ChiaV.Stream Require Import Universe Versioned Codec Json.
+From ChiaV.Stream Require Import Universe Versioned Codec CodecProofs Json.
+From ChiaV.Gen Require Import StreamTypes.
 From Coq Require Import ZifyBool ZifyNat ZifyN.
 Open Scope N_scope.
 
@@ -127,3 +128,456 @@ Proof.
   - destruct (split_names (fst f)) as [|n1 [|n2 [|n3 r]]]; try reflexivity. now rewrite Hg.
   - unfold fj_gentail. destruct (split_names (fst f)) as [|n1 [|n2 [|n3 [|n4 [|n5 r]]]]]; try reflexivity. now rewrite Hg.
 Qed.
+
+(* ================= part j1 ================= *)
+
+(* ---------- hex ---------- *)
+Lemma hexval_hexdigit n : n < 16 -> hexval (hexdigit n) = Some n.
+Proof.
+  intros H.
+  assert (Hc : n = 0 \/ n = 1 \/ n = 2 \/ n = 3 \/ n = 4 \/ n = 5 \/ n = 6 \/ n = 7 \/ n = 8 \/ n = 9 \/
+               n = 10 \/ n = 11 \/ n = 12 \/ n = 13 \/ n = 14 \/ n = 15) by lia.
+  repeat (destruct Hc as [-> | Hc]; [reflexivity|]). subst. reflexivity.
+Qed.
+
+Lemma of_hex_to_hex b : of_hex (to_hex b) = Some b.
+Proof.
+  induction b as [|x b IH]; [reflexivity|]. cbn [to_hex of_hex].
+  pose proof (b2n_lt x) as Hx.
+  rewrite !hexval_hexdigit, IH.
+  - f_equal. f_equal. rewrite <- (n2b_b2n x) at 3. f_equal.
+    pose proof (N.div_mod (b2n x) 16). lia.
+  - apply N.mod_lt. lia.
+  - apply N.div_lt_upper_bound; lia.
+Qed.
+
+(* ================= part j2 ================= *)
+
+Definition jrt (tj : value -> option json) (fj : json -> option value) (chk : value -> bool) : Prop :=
+  forall v, chk v = true -> exists j, tj v = Some j /\ fj j = Some v.
+
+(* ---------- dictionaries ---------- *)
+Lemma dict_get_app_skip k pre rest : ~ In k (map fst pre) -> dict_get k (pre ++ rest) = dict_get k rest.
+Proof.
+  induction pre as [|[k' v'] pre IH]; intros H; [reflexivity|]. cbn [app dict_get].
+  destruct (bytes_eqb_spec k k') as [->|Hn]; [exfalso; apply H; left; reflexivity|].
+  apply IH. intros Hi. apply H. right. exact Hi.
+Qed.
+Lemma dict_get_here k v rest : dict_get k ((k, v) :: rest) = Some v.
+Proof. cbn [dict_get]. now rewrite bytes_eqb_refl. Qed.
+Lemma dict_get_next k k' v' rest : k <> k' -> dict_get k ((k', v') :: rest) = dict_get k rest.
+Proof. intros H. cbn [dict_get]. destruct (bytes_eqb_spec k k'); [contradiction|reflexivity]. Qed.
+
+Lemma mem_bytes_In k l : mem_bytes k l = true <-> In k l.
+Proof.
+  induction l as [|x l IH]; cbn [mem_bytes In]; [split; [discriminate|contradiction]|].
+  destruct (bytes_eqb_spec k x) as [->|Hn]; cbn [orb].
+  - split; auto.
+  - rewrite IH. split; [auto|]. intros [H|H]; [congruence|exact H].
+Qed.
+Lemma nodup_bytes_NoDup l : nodup_bytes l = true -> NoDup l.
+Proof.
+  induction l as [|x l IH]; cbn [nodup_bytes]; intros H; [constructor|].
+  apply andb_prop in H as [H1 H2]. constructor; [|auto].
+  intros Hi. apply mem_bytes_In in Hi. rewrite Hi in H1. discriminate.
+Qed.
+
+(* ---------- not null ---------- *)
+Lemma tj_bytes_not_null b : tj_bytes b <> JNull.
+Proof. unfold tj_bytes, hex0x. destruct b; discriminate. Qed.
+
+Lemma to_json_not_null t : forall v j, nullable t = false -> to_json t v = Some j -> j <> JNull.
+Proof.
+  induction t using ty_ind'; intros v j Hn Hj; cbn [nullable to_json] in *; try discriminate;
+    try (destruct v; try discriminate; injection Hj as <-; first [discriminate | apply tj_bytes_not_null]).
+  - (* Vec *) destruct v; try discriminate. destruct (tj_list (to_json t) l); [|discriminate]. injection Hj as <-. discriminate.
+  - (* Tup *) destruct v; try discriminate. destruct ((length ts =? 2)%nat || (length ts =? 3)%nat); [|discriminate].
+    destruct (tj_seq to_json ts l); [|discriminate]. injection Hj as <-. discriminate.
+  - (* Arr *) destruct v; try discriminate. destruct (tj_list (to_json t) l); [|discriminate]. injection Hj as <-. discriminate.
+  - (* Struct *) destruct sh.
+    + destruct v; try discriminate. destruct (tj_fields to_json fs l); [|discriminate]. injection Hj as <-. discriminate.
+    + destruct fs as [|f [|g fs]]; try discriminate. destruct v; try discriminate. destruct l as [|x [|y l]]; try discriminate.
+      inversion H as [|? ? Hf _]; subst. eapply Hf; eauto.
+  - (* PoS *) unfold tj_pos in Hj. destruct v; try discriminate.
+    repeat (match type of Hj with match ?l with _ => _ end = _ => destruct l; try discriminate end).
+    all: try (match type of Hj with (match ?o with Some _ => _ | None => None end) = _ => destruct o; try discriminate end).
+    all: try (match type of Hj with (match ?o with Some _ => _ | None => None end) = _ => destruct o; try discriminate end).
+    all: try (injection Hj as <-; discriminate).
+Qed.
+
+(* ================= part j3 ================= *)
+
+Lemma fj_bytesn_hex n b : length b = n -> fj_bytesn n (hex0x b) = Some b.
+Proof. intros H. unfold fj_bytesn, hex0x. rewrite strip0x_0x, of_hex_to_hex. now rewrite (proj2 (Nat.eqb_eq _ _) H). Qed.
+
+Lemma fj_bytes_tj b : fj_bytes (tj_bytes b) = Some b.
+Proof.
+  unfold tj_bytes. destruct b as [|x b]; [reflexivity|]. unfold hex0x, fj_bytes. rewrite strip0x_0x. apply of_hex_to_hex.
+Qed.
+
+Lemma fj_hexstring_hex n b : length b = n -> fj_hexstring n (hex0x b) = Some b.
+Proof. intros H. unfold fj_hexstring, hex0x. rewrite strip0x_0x, of_hex_to_hex. now rewrite (proj2 (Nat.eqb_eq _ _) H). Qed.
+
+Lemma fj_u_ok n z : in_range_u n z = true -> fj_u n (JInt z) = Some z.
+Proof. intros H. unfold fj_u, fj_int, in_range_u in *. destruct ((0 <=? z) && (z <=? Z.of_N (pow256 n) - 1))%Z eqn:E; [reflexivity|lia]. Qed.
+Lemma fj_i_ok n z : in_range_i n z = true -> fj_i n (JInt z) = Some z.
+Proof.
+  intros H. unfold fj_i, fj_int. pose proof H as H'. unfold in_range_i in H'.
+  destruct ((- Z.of_N (pow256 n) <=? z) && (z <=? Z.of_N (pow256 n)))%Z eqn:E; [now rewrite H|lia].
+Qed.
+
+(* ---------- lists ---------- *)
+Lemma tj_list_rt tj1 fj1 chk1 : jrt tj1 fj1 chk1 ->
+  forall l, forallb chk1 l = true -> exists js, tj_list tj1 l = Some js /\ fj_list fj1 js = Some l /\ length js = length l.
+Proof.
+  intros Hs. induction l as [|x l IH]; cbn [forallb]; intros H; [exists []; auto|].
+  apply andb_prop in H as [Hx Hl]. destruct (Hs x Hx) as (j & Hj & Hf). destruct (IH Hl) as (js & Hjs & Hfs & Hlen).
+  exists (j :: js). cbn [tj_list fj_list length]. rewrite Hj, Hjs, Hf, Hfs, Hlen. auto.
+Qed.
+
+Lemma tj_seq_rt (tj : ty -> value -> option json) fj chk ts :
+  Forall (fun t => jrt (tj t) (fj t) (chk t)) ts ->
+  forall l, chk_seq chk ts l = true -> exists js, tj_seq tj ts l = Some js /\ fj_seq fj ts js = Some l.
+Proof.
+  induction 1 as [|t ts Ht _ IH]; intros [|x l]; cbn [chk_seq]; try discriminate; intros H; [exists []; auto|].
+  apply andb_prop in H as [Hx Hl]. destruct (Ht x Hx) as (j & Hj & Hf). destruct (IH l Hl) as (js & Hjs & Hfs).
+  exists (j :: js). cbn [tj_seq fj_seq]. rewrite Hj, Hjs, Hf, Hfs. auto.
+Qed.
+
+Lemma tj_ints_rt n l : forallb (wf_u n) l = true -> exists js, tj_ints l = Some js /\ fj_intlist n js = Some l.
+Proof.
+  induction l as [|x l IH]; cbn [forallb]; intros H; [exists []; auto|].
+  apply andb_prop in H as [Hx Hl]. destruct x; try discriminate. cbn [wf_u] in Hx.
+  destruct (IH Hl) as (js & Hjs & Hfs). exists (JInt z :: js). cbn [tj_ints fj_intlist]. rewrite Hjs, (fj_u_ok n z Hx), Hfs. auto.
+Qed.
+
+(* ---------- generator tail ---------- *)
+Lemma gentail_json_rt O v n1 n2 n3 n4 d :
+  wf_gentail O false v = true ->
+  str n1 <> str n2 -> str n1 <> str n3 -> str n1 <> str n4 -> str n2 <> str n3 -> str n2 <> str n4 -> str n3 <> str n4 ->
+  exists a b c e, v = VList [a; b; c; e] /\
+  exists kvs, tj_gentail [n1; n2; n3; n4] [a; b; c; e] = Some kvs /\ map fst kvs = [str n1; str n2; str n3; str n4] /\
+    ((forall k, In k [str n1; str n2; str n3; str n4] -> dict_get k d = dict_get k kvs) ->
+     fj_gentail O [n1; n2; n3; n4] (JDict d) = Some [a; b; c; e]).
+Proof.
+  intros Hw H12 H13 H14 H23 H24 H34.
+  apply wf_gentail_inv in Hw as (gn & refs & buf & ver & -> & Hgn & Hok & Hrefs & Hbuf & Hver & Hsh).
+  exists gn, (VList refs), buf, (VInt ver). split; [reflexivity|].
+  destruct (tj_ints_rt 4 refs Hrefs) as (jr & Hjr & Hfr).
+  assert (Hg : exists jg, tj_opt (fun x => match x with VBytes b => Some (tj_bytes b) | _ => None end) gn = Some jg /\
+                          fj_opt (fj_prog O) jg = Some gn).
+  { destruct Hgn as [-> | (b & -> & Hb)]; [exists JNull; auto|].
+    exists (tj_bytes b). split; [reflexivity|]. unfold fj_opt.
+    pose proof (tj_bytes_not_null b) as Hnn. destruct (tj_bytes b) eqn:E; try contradiction; rewrite <- E;
+      unfold fj_prog; rewrite fj_bytes_tj, Hb, N.eqb_refl; reflexivity. }
+  assert (Hb : exists jb, tj_opt (fun x => match x with VList l => l' <- tj_ints l ;; Some (JList l') | _ => None end) buf = Some jb /\
+                          fj_opt (fun x => l <- iter_of x ;; b <- fj_intlist 1 l ;; Some (VList b)) jb = Some buf).
+  { destruct Hbuf as [-> | (l & -> & Hl)]; [exists JNull; auto|].
+    destruct (tj_ints_rt 1 l Hl) as (jl & Hjl & Hfl). exists (JList jl). cbn [tj_opt]. rewrite Hjl. split; [reflexivity|].
+    cbn [fj_opt iter_of]. now rewrite Hfl. }
+  destruct Hg as (jg & Hjg & Hfg). destruct Hb as (jb & Hjb & Hfb).
+  eexists. split; [unfold tj_gentail; rewrite Hjg, Hjr, Hjb; reflexivity|]. split; [reflexivity|].
+  intros Hd. unfold fj_gentail. cbn [get_item].
+  rewrite (Hd (str n1)) by (cbn; auto). rewrite dict_get_here. rewrite Hfg.
+  rewrite (Hd (str n2)) by (cbn; auto). rewrite (dict_get_next _ _ _ _ (not_eq_sym H12)), dict_get_here. cbn [iter_of]. rewrite Hfr.
+  rewrite (Hd (str n3)) by (cbn; auto). rewrite (dict_get_next _ _ _ _ (not_eq_sym H13)), (dict_get_next _ _ _ _ (not_eq_sym H23)), dict_get_here. rewrite Hfb.
+  rewrite (Hd (str n4)) by (cbn; auto 6).
+  rewrite (dict_get_next _ _ _ _ (not_eq_sym H14)), (dict_get_next _ _ _ _ (not_eq_sym H24)), (dict_get_next _ _ _ _ (not_eq_sym H34)), dict_get_here.
+  rewrite (fj_u_ok 1 ver Hver). reflexivity.
+Qed.
+
+(* ================= part j4 ================= *)
+
+Definition pos_kvs (j1 j2 j3 j4 j5 j6 j7 j8 j9 j10 : json) : list (bytes * json) :=
+  [ (str "challenge", j1); (str "pool_public_key", j2); (str "pool_contract_puzzle_hash", j3);
+    (str "plot_public_key", j4); (str "version", j5); (str "plot_index", j6); (str "meta_group", j7);
+    (str "strength", j8); (str "size", j9); (str "proof", j10) ].
+
+Lemma pos_kvs_get j1 j2 j3 j4 j5 j6 j7 j8 j9 j10 :
+  let d := JDict (pos_kvs j1 j2 j3 j4 j5 j6 j7 j8 j9 j10) in
+  get_item d (str "challenge") = Some j1 /\ get_item d (str "pool_public_key") = Some j2 /\
+  get_item d (str "pool_contract_puzzle_hash") = Some j3 /\ get_item d (str "plot_public_key") = Some j4 /\
+  get_item d (str "version") = Some j5 /\ get_item d (str "plot_index") = Some j6 /\
+  get_item d (str "meta_group") = Some j7 /\ get_item d (str "strength") = Some j8 /\
+  get_item d (str "size") = Some j9 /\ get_item d (str "proof") = Some j10.
+Proof. cbv zeta. repeat split; reflexivity. Qed.
+
+Lemma pos_json_rt O : jrt tj_pos (fj_pos O) (wf_pos O false).
+Proof.
+  intros v Hw.
+  apply wf_pos_inv in Hw as (ch & pk & c & ppk & ver & pi & mg & st & sz & pf & -> & Hch & Hpk & Hc & Hppk & Hgp & Hver & Hpi & Hmg & Hst & Hsz & Hpf & Hsh).
+  assert (Hjpk : exists jpk, tj_opt (fun x => match x with VBytes b => Some (hex0x b) | _ => None end) pk = Some jpk /\
+                             fj_opt (fj_g1 O) jpk = Some pk).
+  { destruct Hpk as [-> | (b & -> & Hb & Hg)]; [exists JNull; auto|].
+    exists (hex0x b). split; [reflexivity|]. unfold fj_opt, hex0x. fold (hex0x b). unfold fj_g1. rewrite (fj_hexstring_hex 48 b Hb), Hg. reflexivity. }
+  assert (Hjc : exists jc, tj_opt (fun x => match x with VBytes b => Some (hex0x b) | _ => None end) c = Some jc /\
+                           fj_opt (fun x => b <- fj_bytesn 32 x ;; Some (VBytes b)) jc = Some c).
+  { destruct Hc as [-> | (b & -> & Hb)]; [exists JNull; auto|].
+    exists (hex0x b). split; [reflexivity|]. unfold fj_opt, hex0x. fold (hex0x b). rewrite (fj_bytesn_hex 32 b Hb). reflexivity. }
+  destruct Hjpk as (jpk & Hjpk & Hfpk). destruct Hjc as (jc & Hjc & Hfc).
+  exists (JDict (pos_kvs (hex0x ch) jpk jc (hex0x ppk) (JInt ver) (JInt pi) (JInt mg) (JInt st) (JInt sz) (tj_bytes pf))).
+  split; [unfold tj_pos; rewrite Hjpk, Hjc; reflexivity|].
+  destruct (pos_kvs_get (hex0x ch) jpk jc (hex0x ppk) (JInt ver) (JInt pi) (JInt mg) (JInt st) (JInt sz) (tj_bytes pf))
+    as (G1 & G2 & G3 & G4 & G5 & G6 & G7 & G8 & G9 & G10).
+  unfold fj_pos. rewrite G1, G2, G3, G4, G5, G6, G7, G8, G9, G10.
+  rewrite (fj_bytesn_hex 32 ch Hch), Hfpk, Hfc. unfold fj_g1. rewrite (fj_hexstring_hex 48 ppk Hppk), Hgp.
+  rewrite (fj_u_ok 1 ver Hver), (fj_u_ok 2 pi Hpi), (fj_u_ok 1 mg Hmg), (fj_u_ok 1 st Hst), (fj_u_ok 1 sz Hsz), fj_bytes_tj.
+  reflexivity.
+Qed.
+
+(* ================= part j5 ================= *)
+
+Lemma nodup_app_r {A} (l m : list A) : NoDup (l ++ m) -> NoDup m.
+Proof. induction l as [|x l IH]; [auto|]. cbn [app]. intros H. inversion H; subst. auto. Qed.
+Lemma nodup_app_l {A} (l m : list A) : NoDup (l ++ m) -> NoDup l.
+Proof.
+  induction l as [|x l IH]; [constructor|]. cbn [app]. intros H. inversion H as [|? ? Hx Hr]; subst.
+  constructor; [|auto]. intros Hi. apply Hx. apply in_or_app. now left.
+Qed.
+
+Definition is_multi (t : ty) : bool := match t with Opt2 _ _ | GenTail _ => true | _ => false end.
+
+Lemma tj_fields_ord tj f fs l : is_multi (snd f) = false ->
+  tj_fields tj (f :: fs) l = match l with
+                             | x :: l' => j <- tj (snd f) x ;; r <- tj_fields tj fs l' ;; Some ((str (fst f), j) :: r)
+                             | [] => None
+                             end.
+Proof. intros H. cbn [tj_fields]. destruct (snd f); try discriminate; reflexivity. Qed.
+Lemma fj_fields_ord fj O f fs j : is_multi (snd f) = false ->
+  fj_fields fj O (f :: fs) j = (j1 <- get_item j (str (fst f)) ;; v <- fj (snd f) j1 ;; r <- fj_fields fj O fs j ;; Some (v :: r)).
+Proof. intros H. cbn [fj_fields]. destruct (snd f); try discriminate; reflexivity. Qed.
+Lemma pack_ord t l : is_multi t = false -> pack t l = match l with a :: r => Some (a, r) | [] => None end.
+Proof. intros H. destruct t; try discriminate; reflexivity. Qed.
+Lemma entry_keys_ord f : is_multi (snd f) = false -> entry_keys f = [str (fst f)].
+Proof. intros H. unfold entry_keys. destruct (snd f); try discriminate; reflexivity. Qed.
+
+Section JsonRt.
+  Variable O : oracles.
+
+  Definition jrt_t (t : ty) : Prop := jrt (to_json t) (from_json O t) (wf O false t).
+
+  Definition entry_ok (f : string * ty) : Prop :=
+    match snd f with
+    | Opt2 a b => jrt_t a /\ jrt_t b /\ nullable a = false /\ nullable b = false /\ exists n1 n2, split_names (fst f) = [n1; n2]
+    | GenTail _ => exists n1 n2 n3 n4, split_names (fst f) = [n1; n2; n3; n4]
+    | t => jrt_t t
+    end.
+
+  Lemma fj_opt_some (fj : json -> option value) j x : j <> JNull -> fj j = Some x -> fj_opt fj j = Some (VSome x).
+  Proof. intros Hn Hf. unfold fj_opt. destruct j; try contradiction; now rewrite Hf. Qed.
+
+  Lemma opt_json_rt a o : jrt_t a -> nullable a = false -> wf_optval (wf O false a) o = true ->
+    exists j, tj_opt (to_json a) o = Some j /\ fj_opt (from_json O a) j = Some o.
+  Proof.
+    intros Ha Hn Hw. destruct o; try discriminate; cbn [wf_optval] in Hw.
+    - exists JNull. auto.
+    - destruct (Ha o Hw) as (j & Hj & Hf). exists j. split; [exact Hj|].
+      apply fj_opt_some; [eapply to_json_not_null; eauto|exact Hf].
+  Qed.
+
+  Lemma fields_rt fs :
+    Forall entry_ok fs -> NoDup (keys_of fs) ->
+    forall l, chk_fields (wf O false) fs l = true ->
+    exists kvs, tj_fields to_json fs l = Some kvs /\ map fst kvs = keys_of fs /\
+      forall pre, (forall k, In k (keys_of fs) -> ~ In k (map fst pre)) ->
+        fj_fields (from_json O) O fs (JDict (pre ++ kvs)) = Some l.
+  Proof.
+    induction 1 as [|f fs Hf _ IH]; intros Hnd l Hc.
+    - cbn [chk_fields] in Hc. destruct l; [|discriminate]. exists []. repeat split; reflexivity.
+    - unfold keys_of in Hnd. cbn [flat_map] in Hnd. fold (keys_of fs) in Hnd.
+      pose proof (nodup_app_r _ _ Hnd) as Hnd_fs.
+      assert (Hdisj : forall k, In k (entry_keys f) -> ~ In k (keys_of fs)).
+      { intros k Hk Hk'. clear - Hnd Hk Hk'. induction (entry_keys f) as [|x xs IHx]; [destruct Hk|].
+        cbn [app] in Hnd. inversion Hnd as [|? ? Hx Hrest]; subst. destruct Hk as [->|Hk].
+        - apply Hx. apply in_or_app. right. exact Hk'.
+        - now apply IHx. }
+      cbn [chk_fields] in Hc. destruct (pack (snd f) l) as [[v l']|] eqn:Ep; [|discriminate].
+      apply andb_prop in Hc as [Hv Hl'].
+      destruct (IH Hnd_fs l' Hl') as (kr & Hkr & Hmr & Hfr).
+      unfold entry_ok in Hf.
+      destruct (is_multi (snd f)) eqn:Em.
+      + destruct (snd f) eqn:Et; try discriminate Em.
+        * (* Opt2 *)
+          destruct Hf as (Ha & Hb & Hna & Hnb & n1 & n2 & Hnames).
+          cbn [pack] in Ep. destruct l as [|oa [|ob l0]]; try discriminate. injection Ep as <- <-.
+          cbn [wf] in Hv. apply andb_prop in Hv as [Hwa Hwb].
+          destruct (opt_json_rt t1 oa Ha Hna Hwa) as (ja & Hja & Hfa). destruct (opt_json_rt t2 ob Hb Hnb Hwb) as (jb & Hjb & Hfb).
+          assert (Hk : entry_keys f = [str n1; str n2]) by (unfold entry_keys; rewrite Et, Hnames; reflexivity).
+          rewrite Hk in Hnd, Hdisj. cbn [app] in Hnd.
+          assert (H12 : str n1 <> str n2).
+          { inversion Hnd as [|? ? Hx _]; subst. intros E. apply Hx. left. now rewrite E. }
+          exists ((str n1, ja) :: (str n2, jb) :: kr). split; [|split].
+          -- cbn [tj_fields]. rewrite Et, Hnames, Hja, Hjb, Hkr. reflexivity.
+          -- cbn [map fst]. rewrite Hmr. unfold keys_of at 2. cbn [flat_map]. rewrite Hk. reflexivity.
+          -- intros pre Hpre. cbn [fj_fields]. rewrite Et, Hnames. cbn [get_item].
+             assert (Hp1 : ~ In (str n1) (map fst pre)) by (apply Hpre; unfold keys_of; cbn [flat_map]; rewrite Hk; cbn; auto).
+             assert (Hp2 : ~ In (str n2) (map fst pre)) by (apply Hpre; unfold keys_of; cbn [flat_map]; rewrite Hk; cbn; auto).
+             rewrite (dict_get_app_skip _ _ _ Hp1), dict_get_here, Hfa.
+             rewrite (dict_get_app_skip _ _ _ Hp2), (dict_get_next _ _ _ _ (not_eq_sym H12)), dict_get_here, Hfb.
+             replace (pre ++ (str n1, ja) :: (str n2, jb) :: kr) with ((pre ++ [(str n1, ja); (str n2, jb)]) ++ kr) by (rewrite <- app_assoc; reflexivity).
+             rewrite Hfr; [reflexivity|].
+             intros k Hk' Hin. rewrite map_app in Hin. apply in_app_or in Hin as [Hin|Hin].
+             ++ apply (Hpre k); [unfold keys_of; cbn [flat_map]; apply in_or_app; right; exact Hk'|exact Hin].
+             ++ apply (Hdisj k); [exact Hin|exact Hk'].
+        * (* GenTail *)
+          destruct Hf as (n1 & n2 & n3 & n4 & Hnames).
+          assert (Hk : entry_keys f = [str n1; str n2; str n3; str n4]) by (unfold entry_keys; rewrite Et, Hnames; reflexivity).
+          rewrite Hk in Hnd, Hdisj. cbn [app] in Hnd.
+          assert (Hd4 : NoDup [str n1; str n2; str n3; str n4]).
+          { clear - Hnd. change (str n1 :: str n2 :: str n3 :: str n4 :: keys_of fs) with ([str n1; str n2; str n3; str n4] ++ keys_of fs) in Hnd.
+            now apply nodup_app_l in Hnd. }
+          assert (H12 : str n1 <> str n2) by (inversion Hd4 as [|? ? Hx _]; subst; intros E; apply Hx; rewrite E; cbn; auto).
+          assert (H13 : str n1 <> str n3) by (inversion Hd4 as [|? ? Hx _]; subst; intros E; apply Hx; rewrite E; cbn; auto).
+          assert (H14 : str n1 <> str n4) by (inversion Hd4 as [|? ? Hx _]; subst; intros E; apply Hx; rewrite E; cbn; auto).
+          inversion Hd4 as [|? ? _ Hd3]; subst.
+          assert (H23 : str n2 <> str n3) by (inversion Hd3 as [|? ? Hx _]; subst; intros E; apply Hx; rewrite E; cbn; auto).
+          assert (H24 : str n2 <> str n4) by (inversion Hd3 as [|? ? Hx _]; subst; intros E; apply Hx; rewrite E; cbn; auto).
+          inversion Hd3 as [|? ? _ Hd2]; subst.
+          assert (H34 : str n3 <> str n4) by (inversion Hd2 as [|? ? Hx _]; subst; intros E; apply Hx; rewrite E; cbn; auto).
+          cbn [wf] in Hv.
+          cbn [pack] in Ep. destruct l as [|a [|b [|c [|e l0]]]]; try discriminate. injection Ep as <- <-.
+          destruct (gentail_json_rt O _ n1 n2 n3 n4 ([] : list (bytes * json)) Hv H12 H13 H14 H23 H24 H34)
+            as (a' & b' & c' & e' & Heq & kg & Hkg & Hmg & _).
+          injection Heq as <- <- <- <-.
+          exists (kg ++ kr). split; [|split].
+          -- cbn [tj_fields]. rewrite Et, Hnames, Hkg, Hkr. reflexivity.
+          -- rewrite map_app, Hmg, Hmr. unfold keys_of at 2. cbn [flat_map]. rewrite Hk. reflexivity.
+          -- intros pre Hpre. cbn [fj_fields]. rewrite Et, Hnames.
+             destruct (gentail_json_rt O _ n1 n2 n3 n4 (pre ++ kg ++ kr) Hv H12 H13 H14 H23 H24 H34)
+               as (a2 & b2 & c2 & e2 & Heq2 & kg2 & Hkg2 & _ & Hfg).
+             injection Heq2 as <- <- <- <-. rewrite Hkg in Hkg2. injection Hkg2 as <-.
+             rewrite Hfg.
+             ++ replace (pre ++ kg ++ kr) with ((pre ++ kg) ++ kr) by now rewrite app_assoc.
+                rewrite Hfr; [reflexivity|].
+                intros k Hk' Hin. rewrite map_app in Hin. apply in_app_or in Hin as [Hin|Hin].
+                ** apply (Hpre k); [unfold keys_of; cbn [flat_map]; apply in_or_app; right; exact Hk'|exact Hin].
+                ** rewrite Hmg in Hin. apply (Hdisj k); [exact Hin|exact Hk'].
+             ++ intros k Hk'. rewrite dict_get_app_skip.
+                ** (* the key is found inside kg, the later pairs are irrelevant *)
+                   assert (Hin : In k (map fst kg)) by now rewrite Hmg.
+                   clear - Hin. induction kg as [|[k0 v0] kg IHk]; [destruct Hin|].
+                   cbn [app dict_get]. destruct (bytes_eqb_spec k k0); [reflexivity|].
+                   apply IHk. destruct Hin as [E|Hin]; [cbn in E; congruence|exact Hin].
+                ** apply Hpre. unfold keys_of. cbn [flat_map]. rewrite Hk. apply in_or_app. left. exact Hk'.
+      + (* ordinary entry *)
+        assert (Hj : jrt_t (snd f)) by (destruct (snd f); try discriminate Em; exact Hf).
+        rewrite (pack_ord _ _ Em) in Ep. destruct l as [|x l0]; [discriminate|]. injection Ep as <- <-.
+        destruct (Hj x Hv) as (j & Hjx & Hfx).
+        pose proof (entry_keys_ord f Em) as Hk. rewrite Hk in Hnd, Hdisj. cbn [app] in Hnd.
+        exists ((str (fst f), j) :: kr). split; [|split].
+        * rewrite (tj_fields_ord _ _ _ _ Em), Hjx, Hkr. reflexivity.
+        * cbn [map fst]. rewrite Hmr. unfold keys_of at 2. cbn [flat_map]. rewrite Hk. reflexivity.
+        * intros pre Hpre. rewrite (fj_fields_ord _ _ _ _ _ Em). cbn [get_item].
+          assert (Hp1 : ~ In (str (fst f)) (map fst pre)) by (apply Hpre; unfold keys_of; cbn [flat_map]; rewrite Hk; cbn; auto).
+          rewrite (dict_get_app_skip _ _ _ Hp1), dict_get_here, Hfx.
+          replace (pre ++ (str (fst f), j) :: kr) with ((pre ++ [(str (fst f), j)]) ++ kr) by (rewrite <- app_assoc; reflexivity).
+          rewrite Hfr; [reflexivity|].
+          intros k Hk' Hin. rewrite map_app in Hin. apply in_app_or in Hin as [Hin|Hin].
+          -- apply (Hpre k); [unfold keys_of; cbn [flat_map]; apply in_or_app; right; exact Hk'|exact Hin].
+          -- apply (Hdisj k); [exact Hin|exact Hk'].
+  Qed.
+End JsonRt.
+
+(* ================= part j6 ================= *)
+
+Lemma json_ok_not_multi t : json_ok t = true -> is_multi t = false.
+Proof. destruct t; try reflexivity; discriminate. Qed.
+
+Section Main.
+  Variable O : oracles.
+
+  Definition P (t : ty) : Prop :=
+    (json_ok t = true -> jrt_t O t) /\
+    match t with
+    | Opt2 a b => (json_ok a = true -> jrt_t O a) /\ (json_ok b = true -> jrt_t O b)
+    | _ => True
+    end.
+
+  Lemma entries_ok fs : Forall (fun f => P (snd f)) fs -> all_field json_ok fs = true -> Forall (entry_ok O) fs.
+  Proof.
+    induction 1 as [|f fs Hf _ IH]; cbn [all_field]; intros H; [constructor|].
+    apply andb_prop in H as [Hh Ht]. constructor; [|auto].
+    unfold entry_ok. destruct Hf as [Hf1 Hf2].
+    destruct (snd f) eqn:Et; try (apply Hf1; exact Hh).
+    - (* Opt2 *) destruct Hf2 as [Ha Hb].
+      apply andb_prop in Hh as [Hh Hn]. apply andb_prop in Hh as [Hh Hnb]. apply andb_prop in Hh as [Hh Hna]. apply andb_prop in Hh as [Hoa Hob].
+      repeat split; auto; try (now apply negb_true_iff).
+      destruct (split_names (fst f)) as [|n1 [|n2 [|? ?]]]; try discriminate. eauto.
+    - (* GenTail *) destruct (split_names (fst f)) as [|n1 [|n2 [|n3 [|n4 [|? ?]]]]]; try discriminate. eauto 6.
+  Qed.
+
+  Lemma all_ty_forall ts : Forall P ts -> all_ty json_ok ts = true -> Forall (fun t => jrt_t O t) ts.
+  Proof.
+    induction 1 as [|t ts Ht _ IH]; cbn [all_ty]; intros H; [constructor|].
+    apply andb_prop in H as [Hh Hr]. constructor; [apply Ht; exact Hh|auto].
+  Qed.
+
+  Theorem json_roundtrip_P t : P t.
+  Proof.
+    induction t using ty_ind'; (split; [intros Hok v Hw; cbn [json_ok] in Hok; cbn [wf] in Hw | try exact Logic.I]).
+    - (* U *) destruct v; try discriminate. cbn [wf_u] in Hw. eexists. split; [reflexivity|]. cbn [from_json]. now rewrite (fj_u_ok n z Hw).
+    - (* I *) destruct v; try discriminate. eexists. split; [reflexivity|]. cbn [from_json]. now rewrite (fj_i_ok n z Hw).
+    - (* Bool *) destruct v; try discriminate. eexists. split; reflexivity.
+    - (* BytesN *) destruct v; try discriminate. cbn [wf_bytes_len] in Hw. apply Nat.eqb_eq in Hw.
+      eexists. split; [reflexivity|]. cbn [from_json]. now rewrite (fj_bytesn_hex n b Hw).
+    - (* Bytes *) destruct v; try discriminate. eexists. split; [reflexivity|]. cbn [from_json]. now rewrite fj_bytes_tj.
+    - (* Str *) destruct v; try discriminate. apply andb_prop in Hw as [_ Hu]. eexists. split; [reflexivity|]. cbn [from_json]. now rewrite Hu.
+    - (* Opt *) apply andb_prop in Hok as [Hok Hn]. apply negb_true_iff in Hn.
+      destruct IHt as [IH _]. cbn [to_json from_json]. now apply (opt_json_rt O t v (IH Hok) Hn).
+    - (* Vec *) destruct IHt as [IH _]. destruct v; try discriminate. apply andb_prop in Hw as [_ Hf].
+      destruct (tj_list_rt _ _ _ (IH Hok) l Hf) as (js & Hjs & Hfs & _).
+      exists (JList js). cbn [to_json from_json iter_of]. rewrite Hjs, Hfs. auto.
+    - (* Tup *) apply andb_prop in Hok as [Hlen Hall]. destruct v; try discriminate.
+      destruct (tj_seq_rt to_json (from_json O) (wf O false) ts (all_ty_forall ts H Hall) l Hw) as (js & Hjs & Hfs).
+      exists (JList js). cbn [to_json from_json seq_of]. rewrite Hlen, Hjs, Hfs. auto.
+    - (* Arr *) destruct IHt as [IH _]. destruct v; try discriminate. apply andb_prop in Hw as [Hl Hf]. apply Nat.eqb_eq in Hl.
+      destruct (tj_list_rt _ _ _ (IH Hok) l Hf) as (js & Hjs & Hfs & Hlen).
+      exists (JList js). cbn [to_json from_json seq_of]. rewrite Hjs, Hfs. rewrite Hlen, Hl, Nat.eqb_refl. auto.
+    - (* Enum *) destruct v; try discriminate. apply andb_prop in Hw as [Hz Hex]. apply andb_prop in Hz as [Hz0 Hz1].
+      eexists. split; [reflexivity|]. cbn [from_json].
+      assert (Hr : in_range_u 1 z = true) by (unfold in_range_u; change (pow256 1) with 256; lia).
+      now rewrite (fj_u_ok 1 z Hr), Hex.
+    - (* Struct *) destruct sh.
+      + apply andb_prop in Hok as [Hall Hnd]. destruct v; try discriminate.
+        destruct (fields_rt O fs (entries_ok fs H Hall) (nodup_bytes_NoDup _ Hnd) l Hw) as (kvs & Hk & _ & Hf).
+        exists (JDict kvs). cbn [to_json from_json]. rewrite Hk. split; [reflexivity|].
+        specialize (Hf [] (fun _ _ Hi => Hi)). cbn [app] in Hf. now rewrite Hf.
+      + destruct fs as [|f [|g fs]]; try discriminate. destruct v; try discriminate.
+        cbn [chk_fields] in Hw. rewrite (pack_ord _ _ (json_ok_not_multi _ Hok)) in Hw.
+        destruct l as [|x [|y l]]; try discriminate; [|rewrite andb_comm in Hw; discriminate].
+        rewrite andb_true_r in Hw.
+        inversion H as [|? ? [Hf _] _]; subst. destruct (Hf Hok x Hw) as (j & Hj & Hfj).
+        exists j. cbn [to_json from_json]. rewrite Hj, Hfj. auto.
+    - (* G1 *) destruct v; try discriminate. apply andb_prop in Hw as [Hl Hg]. apply Nat.eqb_eq in Hl.
+      eexists. split; [reflexivity|]. cbn [from_json]. unfold fj_g1. now rewrite (fj_hexstring_hex 48 b Hl), Hg.
+    - (* G2 *) destruct v; try discriminate. apply andb_prop in Hw as [Hl Hg]. apply Nat.eqb_eq in Hl.
+      eexists. split; [reflexivity|]. cbn [from_json]. now rewrite (fj_hexstring_hex 96 b Hl), Hg.
+    - (* Prog *) destruct v; try discriminate. eexists. split; [reflexivity|]. cbn [from_json]. unfold fj_prog. rewrite fj_bytes_tj.
+      destruct (prog_len O false b); [|discriminate]. now rewrite Hw.
+    - (* Sk *) destruct v; try discriminate. apply andb_prop in Hw as [Hl Hg]. apply Nat.eqb_eq in Hl.
+      eexists. split; [reflexivity|]. cbn [from_json]. now rewrite (fj_hexstring_hex 32 b Hl), Hg.
+    - (* Opt2: json_ok false *) discriminate.
+    - (* Opt2, second component *) destruct IHt1 as [I1 _]. destruct IHt2 as [I2 _]. split; assumption.
+    - (* PoS *) cbn [to_json from_json]. now apply pos_json_rt.
+    - (* GenTail *) discriminate.
+  Qed.
+
+  (* C20: converting a well-formed value to its JSON form and back yields the value *)
+  Theorem json_roundtrip t v :
+    json_ok t = true -> wf O false t v = true ->
+    exists j, to_json t v = Some j /\ from_json O t j = Some v.
+  Proof. intros Hok Hw. exact (proj1 (json_roundtrip_P t) Hok v Hw). Qed.
+End Main.
+
+(* the value that comes back is the same value, hence it has the same encoding and the same digest input *)
+Corollary json_roundtrip_same_bytes_and_hash O t v :
+  json_ok t = true -> wf O false t v = true ->
+  exists j, to_json t v = Some j /\
+    forall v', from_json O t j = Some v' -> v' = v /\ encode t v' = encode t v /\ digest O t v' = digest O t v.
+Proof.
+  intros Hok Hw. destruct (json_roundtrip O t v Hok Hw) as (j & Hj & Hf). exists j. split; [exact Hj|].
+  intros v' Hv'. rewrite Hf in Hv'. injection Hv' as <-. auto.
+Qed.
+
+Lemma json_ok_all : forallb (fun p => json_ok (snd p)) stream_types = true.
+Proof. vm_compute. reflexivity. Qed.
